@@ -157,7 +157,8 @@ def main():
       errors.append({"k": "exc", "plan": list(plan), "idx": ix, "exc": repr(e)[:300]})
   # forgiving factor: zero / sign / strict order on series of trial sizes; size model on real (trial) models
   if shard == 0:
-    for series, (dp, dn, rate, ref) in enumerate([(8, 8, 2.0, 1000), (5, 12, 4.0, 4096), (8, 8, 2.0, 37)]):
+    # (the last parameter set is steep enough for the bonus to pass -100 %: the law has no floor)
+    for series, (dp, dn, rate, ref) in enumerate([(8, 8, 2.0, 1000), (5, 12, 4.0, 4096), (8, 8, 2.0, 37), (8, 60, 1.5, 512)]):
       ff = FFmod.ForgivingFactor(dp, dn, rate)
       ff.reference_size = np.float32(ref)
       for trial in sorted({max(1, ref // 8), ref // 4, ref // 2, ref - 1, ref, ref + 1, 2 * ref, 4 * ref, 9 * ref}):
@@ -173,7 +174,7 @@ def main():
     for trial in (ref // 4, ref - 3, ref - 1, ref, ref + 1, ref + 2, 2 * ref):
       ff.trial_size = np.int64(trial)
       d = float(ff.delta())
-      events.append({"kind": "delta", "series": 3, "ref": int(ref), "trial": int(trial), "sign": int(np.sign(d)), "delta": dy(np.float32(d))})
+      events.append({"kind": "delta", "series": 4, "ref": int(ref), "trial": int(trial), "sign": int(np.sign(d)), "delta": dy(np.float32(d))})
     m = ref_model()
     hm = AutoQKHyperModel(m, metrics=["acc"], target=target, limit=dict({k: list(v) for k, v in LIMIT.items()}),
                           layer_indexes=None, quantization_config=TABLE, tune_filters="none", tune_filters_exceptions="")
